@@ -107,18 +107,23 @@ func solveIndex(e *Term, k *Term, g *Term) *Term {
 	linearize(e, big.NewInt(1), le)
 	kk := k.String()
 	c, ok := le.coef[kk]
-	if !ok || !c.IsInt64() || c.Int64() != 1 {
+	if !ok || !c.IsInt64() || (c.Int64() != 1 && c.Int64() != -1) {
 		return nil
 	}
+	neg := c.Int64() == -1
 	delete(le.coef, kk)
 	delete(le.atoms, kk)
-	// t = g - rest
+	// e = ±k + rest:  k = g - rest   or   k = rest - g
 	res := newLin()
-	linearize(g, big.NewInt(1), res)
-	for key, co := range le.coef {
-		res.addAtom(le.atoms[key], new(big.Int).Neg(co))
+	sign := big.NewInt(1)
+	if neg {
+		sign = big.NewInt(-1)
 	}
-	res.c.Sub(res.c, le.c)
+	linearize(g, sign, res)
+	for key, co := range le.coef {
+		res.addAtom(le.atoms[key], new(big.Int).Mul(new(big.Int).Neg(sign), co))
+	}
+	res.c.Sub(res.c, new(big.Int).Mul(sign, le.c))
 	return res.term()
 }
 
